@@ -1,5 +1,5 @@
 """C06 -- backmapping places rigid, centred, same-handed copies of the residue template."""
-from vlib.framework import PUnit, LUnit, BUnit
+from vlib.framework import PUnit, LUnit, BUnit, LeanUnit
 from contracts import linalg as L
 from contracts import backmap as BM
 from bounded import b_backmap
@@ -11,5 +11,6 @@ def build(tier, seed):
         PUnit("rotate-xyz", [L.ROTATE], L.REG),
         LUnit("proper-rotation", L.lemma_proper_rotation),
         PUnit("place-init-coords", BM.CONTRACTS, BM.REG),
+        LeanUnit("centre-of-geometry-certificate", "lean/Centroid.lean"),
     ] + list(b_backmap.UNITS)
     return {"units": units, "level": "other", "notes": "pyvc"}
